@@ -537,7 +537,9 @@ def suite_C02(g, tier):
 
 
 def stale_state_programs(g, tier, tag):
-    """use V as an operand in every role, overwrite V through every writer, use it again in every role"""
+    """use V as an operand in every role, overwrite V through every writer, use it again in every role; the same writer is
+    also applied to a copy of V's old value into a never-used receiver W, and W is used in the same roles: equal values must
+    behave equally whatever history the objects have (hidden cached state, purity)"""
     rng = g.rng
     writers = ["Point.Negate.self", "Point.Negate.other", "Point.Set", "Point.SetBytes", "Point.SetExtendedCoordinates", "Point.Add",
                "Point.Subtract", "Point.MultByCofactor", "Point.ScalarMult", "Point.ScalarBaseMult", "Point.MultiScalarMult",
@@ -550,61 +552,70 @@ def stale_state_programs(g, tier, tag):
             load_point(p, "p1", any_point(rng), rng)          # P
             load_point(p, "p2", any_point(rng), rng)          # other
             load_scalar(p, "s0", scalar_val(rng), rng)
+
             def uses(V="p0", O="p1"):
                 p.op("Point.Add", r="p3", a=[O, V])           # V on the cached side
-                p.op("Point.Subtract", r="p4", a=[O, V])
+                p.op("Point.Subtract", r="p3", a=[O, V])
                 p.op("Point.Add", r="p3", a=[V, O])
-                p.op("Point.ScalarMult", r="p4", a=["s0", V])
-                p.op("Point.VarTimeMultiScalarMult", r="p4", ss=["s0"], ps=[V])
-                p.op("Point.VarTimeDoubleScalarBaseMult", r="p4", a=["s0", V, "s0"])
-                p.op("Point.MultiScalarMult", r="p4", ss=["s0", "s0"], ps=[V, O])
+                p.op("Point.ScalarMult", r="p3", a=["s0", V])
+                p.op("Point.VarTimeMultiScalarMult", r="p3", ss=["s0"], ps=[V])
+                p.op("Point.VarTimeDoubleScalarBaseMult", r="p3", a=["s0", V, "s0"])
+                p.op("Point.MultiScalarMult", r="p3", ss=["s0", "s0"], ps=[V, O])
                 p.op("Point.Bytes", r=V, o=["b0"])
                 p.op("Point.BytesMontgomery", r=V, o=["b1"])
                 p.op("Point.Equal", r=V, a=[O])
+                p.op("Point.Equal", r=O, a=[V])
+
+            def write(r, v):
+                """apply writer w with receiver r; v is the register that plays V's role among the arguments"""
+                if w == "Point.Negate.self":
+                    p.op("Point.Negate", r=r, a=[v])
+                elif w == "Point.Negate.other":
+                    p.op("Point.Negate", r=r, a=["p2"])
+                elif w == "Point.Set":
+                    p.op("Point.Set", r=r, a=["p2"])
+                elif w == "Point.SetBytes":
+                    p.op("Point.Bytes", r="p2", o=["b2"])
+                    p.op("Point.SetBytes", r=r, a=["b2"])
+                elif w == "Point.SetBytes.bad":
+                    p.buf("b2", bytes(31))
+                    p.op("Point.SetBytes", r=r, a=["b2"])
+                elif w in ("Point.SetExtendedCoordinates", "Point.SetExtendedCoordinates.bad"):
+                    p.op("Point.ExtendedCoordinates", r="p2", o=["e0", "e1", "e2", "e3"])
+                    if w.endswith(".bad"):
+                        p.op("Elem.One", r="e4")
+                        p.op("Elem.Add", r="e3", a=["e3", "e4"])
+                    p.op("Point.SetExtendedCoordinates", r=r, a=["e0", "e1", "e2", "e3"])
+                elif w in ("Point.Add", "Point.Subtract"):
+                    p.op(w, r=r, a=pat(v))
+                elif w == "Point.MultByCofactor":
+                    p.op(w, r=r, a=[v])
+                elif w == "Point.ScalarMult":
+                    p.op(w, r=r, a=["s0", v])
+                elif w == "Point.ScalarBaseMult":
+                    p.op(w, r=r, a=["s0"])
+                elif w == "Point.VarTimeDoubleScalarBaseMult":
+                    p.op(w, r=r, a=["s0", v, "s0"])
+                else:
+                    p.op(w, r=r, ss=["s0", "s0"], ps=[v, "p1"])
+
+            k = rng.randrange(4)
+            pat = lambda v: [[v, "p2"], ["p2", v], ["p2", "p1"], [v, v]][k]
             uses()
-            if w == "Point.Negate.self":
-                p.op("Point.Negate", r="p0", a=["p0"])
-            elif w == "Point.Negate.other":
-                p.op("Point.Negate", r="p0", a=["p2"])
-            elif w == "Point.Set":
-                p.op("Point.Set", r="p0", a=["p2"])
-            elif w == "Point.SetBytes":
-                p.op("Point.Bytes", r="p2", o=["b2"])
-                p.op("Point.SetBytes", r="p0", a=["b2"])
-            elif w == "Point.SetBytes.bad":
-                p.buf("b2", bytes(rng.randrange(256) for _ in range(rng.choice([0, 31, 33]))))
-                p.op("Point.SetBytes", r="p0", a=["b2"])
-            elif w in ("Point.SetExtendedCoordinates", "Point.SetExtendedCoordinates.bad"):
-                p.op("Point.ExtendedCoordinates", r="p2", o=["e0", "e1", "e2", "e3"])
-                if w.endswith(".bad"):
-                    p.op("Elem.One", r="e4")
-                    p.op("Elem.Add", r="e3", a=["e3", "e4"])
-                p.op("Point.SetExtendedCoordinates", r="p0", a=["e0", "e1", "e2", "e3"])
-            elif w in ("Point.Add", "Point.Subtract"):
-                p.op(w, r="p0", a=rng.choice([["p0", "p2"], ["p2", "p0"], ["p2", "p1"], ["p0", "p0"]]))
-            elif w == "Point.MultByCofactor":
-                p.op(w, r="p0", a=[rng.choice(["p0", "p2"])])
-            elif w == "Point.ScalarMult":
-                p.op(w, r="p0", a=["s0", rng.choice(["p0", "p2"])])
-            elif w == "Point.ScalarBaseMult":
-                p.op(w, r="p0", a=["s0"])
-            elif w == "Point.VarTimeDoubleScalarBaseMult":
-                p.op(w, r="p0", a=["s0", rng.choice(["p0", "p2"]), "s0"])
-            else:
-                p.op(w, r="p0", ss=["s0", "s0"], ps=[rng.choice(["p0", "p2"]), "p1"])
+            p.op("Point.Set", r="p5", a=["p0"])               # a copy of V's value before the overwrite
+            write("p0", "p0")                                 # in place: V is receiver (and argument where the writer reads it)
             uses()
-            # the same calls on a freshly decoded copy of V's current value: identical arguments, identical results (purity)
             if not w.endswith(".bad"):
-                p.op("Point.Bytes", r="p0", o=["b3"])
+                write("p4", "p5")                             # the same operation on the copy, into a never-used receiver W
+                uses("p4", "p1")
+                # a freshly decoded copy of V's current value
+                p.op("Point.Bytes", r="p4", o=["b3"])
                 p.op("Point.SetBytes", r="p5", a=["b3"])
-                p.op("Point.Add", r="p3", a=["p1", "p5"])
-                p.op("Point.ScalarMult", r="p4", a=["s0", "p5"])
-                p.op("Point.VarTimeMultiScalarMult", r="p4", ss=["s0"], ps=["p5"])
-                p.op("Point.VarTimeDoubleScalarBaseMult", r="p4", a=["s0", "p5", "s0"])
-                p.op("Point.MultiScalarMult", r="p4", ss=["s0", "s0"], ps=["p5", "p1"])
-                # unrelated work of the same shape on another point, then the same calls once more
-                uses("p1", "p2")
-                uses()
+                uses("p5", "p1")
+            # unrelated work of the same shape on another point, then the same calls once more
+            uses("p1", "p2")
+            uses()
+
 
 
 def sibling_programs(g, tier, tag):
@@ -696,6 +707,26 @@ def cold_programs(g, tier, tag):
         p.op("Point.Bytes", r="p5", o=["b3"])
 
 
+def both_signs_programs(g, tier, tag):
+    rng = g.rng
+    # both sign candidates of the same y decoded back to back (and the first one again), into the same and into other receivers
+    m = 8 if tier == "quick" else 1000
+    for it in range(m):
+        p = g.new("%s both signs back to back" % tag)
+        for k in range(3):
+            pt = rng.choice([rand_point(rng), special_point(rng), rng.choice(TORS_PTS)])
+            e = enc_point(*pt)
+            if rng.randrange(4) == 0 and pt[1] < 19:
+                e = le((P + pt[1]) | ((pt[0] & 1) << 255))
+            e2 = e[:31] + bytes([e[31] ^ 0x80])
+            other = enc_point(*rand_point(rng))
+            seq = rng.choice([[e, e2, e], [e2, e, e2], [e, e, e2], [e2, e, other, e, e2], [e, e2, other, e2, e]])
+            for j, enc in enumerate(seq):
+                p.buf("b%d" % j, enc)
+                p.op("Point.SetBytes", r=rng.choice(["p0", "p0", "p1"]), a=["b%d" % j])
+            p.op("Point.Bytes", r="p0", o=["b6"])
+
+
 def suite_C04(g, tier):
     rng = g.rng
     encs = []
@@ -744,21 +775,7 @@ def suite_C04(g, tier):
             p.op("Point.SetBytes", r=r, a=["b%d" % k])
             if rng.randrange(3) == 0:
                 p.op("Point.Bytes", r=r, o=["b7"])    # panics if r is still the zero value: also fine (C15)
-    # both sign candidates of the same y decoded back to back (and the first one again), into the same and into other receivers
-    m = 8 if tier == "quick" else 1000
-    for it in range(m):
-        p = g.new("C04 both signs back to back")
-        for k in range(3):
-            pt = rng.choice([rand_point(rng), special_point(rng), rng.choice(TORS_PTS)])
-            e = enc_point(*pt)
-            if rng.randrange(4) == 0 and pt[1] < 19:
-                e = le((P + pt[1]) | ((pt[0] & 1) << 255))
-            e2 = e[:31] + bytes([e[31] ^ 0x80])
-            seq = rng.choice([[e, e2, e], [e2, e, e2], [e, e, e2]])
-            for j, enc in enumerate(seq):
-                p.buf("b%d" % j, enc)
-                p.op("Point.SetBytes", r=rng.choice(["p0", "p0", "p1"]), a=["b%d" % j])
-            p.op("Point.Bytes", r="p0", o=["b6"])
+    both_signs_programs(g, tier, "C04")
     # every length
     lens = list(range(0, 34)) + [63, 64, 65, 130]
     for i in range(0, len(lens), 6):
@@ -2107,6 +2124,7 @@ def suite_C19(g, tier):
         p.op("Point.Bytes", r="p0", o=["b0"])
     stale_state_programs(g, tier, "C19")
     cold_programs(g, tier, "C19")
+    both_signs_programs(g, tier, "C19")
 
 
 def suite_field_programs(g, tier):
@@ -2405,11 +2423,14 @@ def suite_C03(shape_seed, secret_seed, tier):
 def conc_scenario(sid, rng, G):
     pre = Prog(0, "prelude")
     load_point(pre, "p0", any_point(rng), rng, rng.choice(["bytes", "ext-lam"]), scratch=("e0", "e1", "e2", "e3"))
-    load_point(pre, "p1", any_point(rng), rng, "bytes")
+    load_point(pre, "p1", (0, 1) if rng.randrange(3) == 0 else any_point(rng), rng, rng.choice(["bytes", "ext-lam"]))
     load_scalar(pre, "s0", 0 if rng.randrange(4) == 0 else scalar_val(rng), rng, "canon")
     load_scalar(pre, "s1", scalar_val(rng), rng, "canon")
     load_elem(pre, "e0", field_val(rng), rng, rng.choice(["inject", "bytes"]))
     load_elem(pre, "e1", rng.randrange(19), rng, "bytes")          # often in the non-canonical form value + p
+    # shared input buffers (read-only for every goroutine): with spare capacity and a live tail
+    pre.buf("b0", bytes(rng.randrange(256) for _ in range(32)), cap=96, tail=bytes(rng.randrange(1, 256) for _ in range(64)))
+    pre.buf("b1", enc_point(*rand_point(rng)), cap=64, tail=bytes(rng.randrange(1, 256) for _ in range(32)))
     gors = []
     first = rng.choice(["same-base", "same-naf", "mixed"])
     for g in range(G):
@@ -2459,6 +2480,16 @@ def conc_scenario(sid, rng, G):
                 p.op("Point.ExtendedCoordinates", r="p0", o=["e4", "e5", "e6", "e7"])
                 p.op("Scalar.Equal", r="s0", a=["s1"])
                 p.op("Scalar.Bytes", r="s1", o=["b5"])
+                p.op("Point.Bytes", r="p1", o=["b4"])
+                # decoders reading the shared buffers; every returned buffer is the goroutine's own: it writes into it
+                p.op("Scalar.SetBytesWithClamping", r="s3", a=["b0"])
+                p.op("Scalar.SetCanonicalBytes", r="s4", a=["b0"])
+                p.op("Elem.SetBytes", r="e2", a=["b0"])
+                p.op("Point.SetBytes", r="p4", a=["b1"])
+                p.op("Point.BytesMontgomery", r="p1", o=["b6"])
+                for bb in ("b4", "b5", "b6"):
+                    p.scribble(bb)
+                p.op("Point.BytesMontgomery", r="p1", o=["b6"])
                 p.op("Point.Bytes", r="p1", o=["b4"])
         gors.append(p.to_json())
     return {"id": sid, "prelude": pre.steps, "goroutines": gors}
